@@ -114,7 +114,7 @@ OP_KINDS = ["diy", "dim", "wiy", "diyr", "leap", "cwds", "owds", "d1ad",
             "dump", "strptime", "dur_cmp", "dur_secs", "rec_list",
             "rec_valid", "rec_after", "rec_getitem", "rec_open", "rec_next",
             "hold", "held_add", "held_reprs", "dto_proc", "dto_diff", "cli",
-            "trunc_add", "consts"]
+            "trunc_add", "consts", "props_epoch"]
 
 
 def gen_op(rng, kind, hot, handles):
@@ -188,6 +188,10 @@ def gen_op(rng, kind, hot, handles):
         return ["from_epoch", rng.choice(
             [0, 86400 * 59, 86400 * 365, 951782400, -86400 * 400,
              86400 * 360 * 30, rng.randint(-10 ** 10, 10 ** 10)])]
+    if kind == "props_epoch":
+        return ["props_epoch", rng.choice(
+            [0, 86400 * 59, 951782400, -86400 * 400, 86400 * 360 * 30,
+             rng.randint(-10 ** 10, 10 ** 10)])]
     if kind == "dump":
         return ["dump", gen_point(rng, hot), rng.choice(DUMP_FORMATS)]
     if kind == "strptime":
@@ -401,7 +405,8 @@ def directed_ops():
                 ["cli", ["R/%s/P1M" % p, "--max=4"]],
                 ["trunc_add", "---15", p], ["trunc_add", "-W-3", p],
                 ["trunc_add", "-045", p]]
-    ops += [["from_epoch", 0], ["from_epoch", 86400 * 59],
+    ops += [["props_epoch", 86400 * 59], ["props_epoch", 951782400],
+            ["from_epoch", 0], ["from_epoch", 86400 * 59],
             ["from_epoch", 951782400], ["from_epoch", -86400 * 400],
             ["from_epoch", 86400 * 365 * 40],
             ["strptime", "2000-02-30", "%Y-%m-%d"],
@@ -577,6 +582,12 @@ def do_op(sim, client, op):
             if kind == "from_epoch":
                 return canon(data.get_timepoint_from_seconds_since_unix_epoch(
                     op[1], utc=True))
+            if kind == "props_epoch":
+                props = (
+                    data.get_timepoint_properties_from_seconds_since_unix_epoch(
+                        op[1]))
+                return canon({k: v for k, v in props.items()
+                              if k not in ("time_zone",)})
             if kind == "dump":
                 return sh.dumper.dump(sh.tp.parse(op[1]), op[2])
             if kind == "strptime":
